@@ -187,7 +187,15 @@ func (c *Ctx) Nontrivial(key string) {
 
 func (c *Ctx) Rule(s string)               { c.rule = s }
 func (c *Ctx) Assume(s ...string)          { c.mu.Lock(); c.assume = append(c.assume, s...); c.mu.Unlock() }
-func (c *Ctx) Set(k string, v interface{}) { c.mu.Lock(); c.extra[k] = v; c.mu.Unlock() }
+func (c *Ctx) Set(k string, v interface{}) {
+	c.mu.Lock()
+	if v == nil {
+		delete(c.extra, k)
+	} else {
+		c.extra[k] = v
+	}
+	c.mu.Unlock()
+}
 
 // Extra returns a value stored with Set (in the parent: merged from the workers).
 func (c *Ctx) Extra(k string) interface{} { c.mu.Lock(); defer c.mu.Unlock(); return c.extra[k] }
